@@ -84,6 +84,50 @@ fn node(ctx: &mut Ctx, t: &mut Tree, p: &Pos, b: &Board, path: &[Mv], special: b
             }
         }
     }
+    // Hash must be consistent with ==, whatever pair of boards is compared: also boards of
+    // neighbouring (different) positions (one node in sixteen)
+    if fp(p) % 16 == 1 {
+        let pf = fp(&(p, "neighbours"));
+        let men: Vec<Sq> = (0..64u8).filter(|&q| matches!(p.at(q), Some((_, k)) if k != Kind::K)).collect();
+        let mut neighbours: Vec<Pos> = vec![];
+        for j in 0..3u64 {
+            if men.is_empty() {
+                break;
+            }
+            let q = men[((pf >> (8 * j)) % men.len() as u64) as usize];
+            let (c, k) = p.at(q).unwrap();
+            let mut x = p.clone();
+            x.ep = None;
+            x.castle = [false; 4];
+            x.board[q as usize] = Some((c.other(), k)); // recoloured
+            neighbours.push(x.clone());
+            let nk = [Kind::N, Kind::B, Kind::R, Kind::Q][((pf >> (30 + 2 * j)) % 4) as usize];
+            x.board[q as usize] = Some((c, nk)); // retyped
+            neighbours.push(x.clone());
+            x.board[q as usize] = None; // removed
+            neighbours.push(x);
+        }
+        let mut x = p.clone();
+        x.ep = None;
+        x.stm = p.stm.other();
+        neighbours.push(x);
+        // the position itself with the same simplifications, as the reference of the comparison
+        let mut own = p.clone();
+        own.ep = None;
+        own.castle = [false; 4];
+        if let Ok(a) = bridge::board_via_builder(&own) {
+            for x in &neighbours {
+                if let Ok(f) = bridge::board_via_builder(x) {
+                    ctx.class("pair:neighbouring-positions");
+                    if f == a && (digest(&f) != digest(&a) || f.get_hash() != a.get_hash()) {
+                        let mut c = case(None);
+                        c["other_position"] = json!(x.fen());
+                        ctx.fail("hash:eq-without-equal-Hash", format!("boards of {:?} and {:?} compare equal under == but their Hash digests / get_hash() differ", own.fen(), x.fen()), c)?;
+                    }
+                }
+            }
+        }
+    }
     // the deprecated editing API as further ways of reaching a position (one node in sixteen)
     if fp(p) % 16 == 0 {
         super::editapi::check_edits(ctx, super::editapi::Mode::Hash, p, b, 2, &|| case(None))?;
@@ -235,7 +279,7 @@ pub fn run(cfg: &Cfg) -> i32 {
     engine::finish(
         report,
         EvidenceSpec {
-            rule: "cases = complete trees of legal moves (depth 2-5 by branching factor and material, node cap 150k-300k) below curated positions and below generated mid-game positions; children are produced through make_move_new and through make_move into a used board (both must agree; the tree advances through them alternately); every node's incrementally maintained hash is compared with the hash of the same position parsed from its own FEN, from an independent standard FEN and built through BoardBuilder, with null_move().null_move(), with boards produced by the deprecated editing API (set_piece / clear_square / castle-rights mutators, one node in sixteen) against the edited position parsed from FEN, and with every other node of the tree that is the same position (bucket key computed by the reference model: placement, side, rights, en-passant state) in get_hash, == and std Hash digest. evaluations = tree nodes. Non-trivial = a position reached by >= 2 different move sequences, or by a path containing castling, en passant, promotion or capture of a rook at home; distinct = position fingerprints.".into(),
+            rule: "(== / Hash consistency is also asked of pairs of boards of neighbouring positions - a man recoloured, retyped or removed, side flipped - one node in sixteen.) cases = complete trees of legal moves (depth 2-5 by branching factor and material, node cap 150k-300k) below curated positions and below generated mid-game positions; children are produced through make_move_new and through make_move into a used board (both must agree; the tree advances through them alternately); every node's incrementally maintained hash is compared with the hash of the same position parsed from its own FEN, from an independent standard FEN and built through BoardBuilder, with null_move().null_move(), with boards produced by the deprecated editing API (set_piece / clear_square / castle-rights mutators, one node in sixteen) against the edited position parsed from FEN, and with every other node of the tree that is the same position (bucket key computed by the reference model: placement, side, rights, en-passant state) in get_hash, == and std Hash digest. evaluations = tree nodes. Non-trivial = a position reached by >= 2 different move sequences, or by a path containing castling, en passant, promotion or capture of a rook at home; distinct = position fingerprints.".into(),
             assumptions: vec!["reference position identity (placement, side, rights, en-passant state = enemy pawn beside the just-pushed pawn)".into()],
             trusted_base: vec!["harness/src/refmodel.rs".into(), "proptest 1.11".into()],
             exhaustive: None,
